@@ -241,7 +241,7 @@ func Run(c *engine.Ctx) {
 				return
 			}
 		}
-		queries := [][]string{{"HTTP", "a.r.com"}, {"krbtgt", "R.COM"}, {"host", "b.r.com"}, {"HTTP"}, {"HTTP", "a.r.com", "x"}, {"nosuch"}, {}}
+		queries := [][]string{{"HTTP/a.r.com"}, {"HTTP", "a.r.com"}, {"krbtgt", "R.COM"}, {"host", "b.r.com"}, {"HTTP"}, {"HTTP", "a.r.com", "x"}, {"nosuch"}, {}}
 		for _, q := range queries {
 			want := -1
 			for i, cr := range m.Creds {
